@@ -80,7 +80,7 @@ CHECKS["C13"] = dict(
     "request log of the deterministic API is compared: two fresh processes with the same seed and different PYTHONHASHSEED, two "
     "runs in one process (sequence equality per phase, equal failure sets), 1 vs 2 vs 4 workers under seeded schedule jitter "
     "(per-operation multiset equality in the unit phases); a different seed must be able to differ.",
-    note="Per-case id header, User-Agent and Host are excluded; a fresh child is not compared with the long-lived shard process (Hypothesis' constants pool depends on imported local modules).",
+    note="Per-case id header, User-Agent and Host are excluded; every module of the product and the harness is imported before the first run (Hypothesis' constants pool follows imported local modules; an editable install makes the product local); a fresh child is not compared with the long-lived shard process.",
     technique="runtime monitoring: offline comparison of recorded request logs across processes, repetitions and worker counts",
     design_ref="DESIGN.md#c13",
 )
@@ -127,7 +127,9 @@ CHECKS["C08"] = dict(
     text="Generated documents (path/operation-level parameters with overrides, $ref'd and nested-$ref'd parameters, path items behind "
     "$ref, recursive schemas, security schemes, malformed entries, several body media types, Swagger 2.0 body x consumes) are loaded "
     "from a dict, from JSON text, from hand-style YAML (unquoted 200/404, on/off/yes/no keys, ISO timestamps) and from a multi-file "
-    "layout with relative references; all 24 orders of iteration / subscript / by-id / by-reference access are exercised; every "
+    "layout with relative references (components in a second file, a path item in another directory next to a decoy file of the "
+    "same relative name); all 24 orders of iteration / subscript / by-id / by-reference access plus lookups made while an iteration "
+    "is suspended are exercised; YAML keys that read as null/float/int/timestamp are written unquoted; every "
     "offered operation's parameters and body alternatives are compared with an independent computation of its effective inputs, "
     "and the YAML-loaded tree with the JSON reading.",
     note="Only name, location, required flag and (inlined) schema of parameters are compared; remote references are out of scope.",
@@ -138,7 +140,7 @@ CHECKS["C08"] = dict(
 CHECKS["C01"] = dict(
     category="exploration",
     text="Positive cases are drawn through operation.as_strategy (the engine's entry point) for operations built from pools of "
-    "satisfiable-by-construction schemas in every location, in OpenAPI 2.0/3.0/3.1, under allow_x00 x codec x security-parameter "
+    "satisfiable-by-construction schemas in every location (incl. parameters declared with `content`), in OpenAPI 2.0/3.0/3.1, under allow_x00 x codec x security-parameter "
     "settings; the value of each location is captured before serialisation by wrapping the strategy factories and judged by an "
     "independent OpenAPI->JSON Schema reading (request mode: readOnly banned), required-parameter presence, undeclared parameters, "
     "NUL/codec restrictions; Unsatisfiable / zero cases for such an operation is a violation.",
@@ -151,7 +153,7 @@ CHECKS["C02"] = dict(
     category="exploration",
     text="Negative cases are drawn through the strategy the engine builds (modes [negative] and [positive, negative]) for the C01 "
     "document pools plus the classes the statement names ({} schemas, bare string headers/path parameters, additionalProperties-only "
-    "objects, optional bodies, no inputs); per case: case label, at least one declared part labelled negative, each negative part "
+    "objects, optional bodies, no inputs, optional plain-string cookies/headers next to a violable query); per case: case label, at least one declared part labelled negative, each negative part "
     "present and - judged on the raw captured value - invalid for the independent location schema, each positive part valid; "
     "surely-violable operations must yield cases, surely-unviolable ones must be skipped.",
     note="Judged on the generated (pre-coercion) value; violability is only judged for the clear cases.",
@@ -163,10 +165,11 @@ CHECKS["C03"] = dict(
     category="exploration",
     text="An exhaustive small grammar of numeric schemas (bounds {absent,-1,0,1,5}, equal, exclusive in both dialects, multipleOf) and of "
     "string schemas (lengths {absent,0,1,3} x patterns), enum/format/example/default/nullable schemas, arrays, objects and "
-    "combinators are placed in every location of OpenAPI 2.0/3.0/3.1 operations; for modes {P},{N},{P,N} every value yielded by the "
+    "combinators, fixed-size arrays and 3.1 type lists / const are placed in every location of OpenAPI 2.0/3.0/3.1 operations (the "
+    "thorough tier adds thousands of random compositions: objects, arrays, anyOf/oneOf/allOf, nullable); for modes {P},{N},{P,N} every value yielded by the "
     "top-level boundary generator (tapped) is validated against the schema it was asked for, and every coverage case is checked for "
     "the labelling rule (negative iff a part is negative or Missing/Duplicate/Unspecified-method) and for part label vs content.",
-    note="Author's example/default values are exempt; non-body parts are read through string coercion; $ref schemas are not judged at value level.",
+    note="Author's example/default values (at any depth) are exempt; non-body parts are read through string coercion and all readings of comma-joined arrays; nested containers and free-text items containing the delimiter outside the body are not judged; $ref schemas are not judged at value level.",
     technique="runtime monitoring: generator tap + validity/label oracle over an enumerated schema grammar",
     design_ref="DESIGN.md#c03",
 )
@@ -189,7 +192,9 @@ CHECKS["C16"] = dict(
     "built from real Case/Response/prepared-request objects whose URLs, header values and bodies are hostile (quotes, #, control "
     "characters, \\x85, U+2028, invalid UTF-8, empty/absent bodies, network errors, unknown encodings, cases without metadata, the "
     "same failure re-found under another label), and by real `st run --report vcr,har,junit` runs; the files are parsed with "
-    "independent parsers and every delivered exchange is compared field by field; handler exceptions and writer-thread deaths are observed.",
+    "independent parsers and every delivered exchange is compared field by field (HAR: also cookies, response headers incl. repeated "
+    "lines, mimeType); a share of the histories runs with sanitisation on and credentials in the URL (URLs/headers not compared there); "
+    "handler exceptions and writer-thread deaths are observed.",
     note="Bodies that are not valid UTF-8 are compared only with preserve-bytes; JUnit is judged for well-formedness, no crash and failure marking.",
     technique="runtime monitoring: offline checker over produced report files (exactly-once, field fidelity) + exception observation",
     design_ref="DESIGN.md#c16",
@@ -198,8 +203,9 @@ CHECKS["C16"] = dict(
 CHECKS["C15"] = dict(
     category="exploration",
     text="Real `st run` invocations (in-process, real argv) with unique high-entropy canaries planted on subsets of the routes a secret "
-    "can take (Authorization / X-API-Key / marker-named headers in several spellings, --auth, --set-query/-header/-cookie, URL "
-    "userinfo, response Set-Cookie and token headers) against an API that fails checks so that failures, curl lines and responses are "
+    "can take (Authorization / X-API-Key / marker-named headers in several spellings and option forms `--header v`, `--header=v`, "
+    "`-H v`, `-Hv`, --auth, --set-query/-header/-cookie, URL userinfo with, with an empty and without a user name, response "
+    "Set-Cookie and token headers sent on one or several lines) against an API that fails checks so that failures, curl lines and responses are "
     "printed; all emitted bytes (console, JUnit, VCR, HAR; preserve-bytes on/off; custom sanitisation config) are searched for each "
     "canary in raw, percent-encoded, base64 and user:password-base64 form. Sanitisation off must show the canaries of the exercised "
     "routes (otherwise the route does not count).",
@@ -212,7 +218,7 @@ CHECKS["C17"] = dict(
     category="exploration",
     text="Generated documents (OpenAPI 2.0/3.0/3.1) carry unique marker examples at random subsets of the placements the statement "
     "lists (parameter example/examples and x- forms, parameter-schema example/examples, media-type example/examples incl. $ref'd example "
-    "objects, body-schema example, property-level and anyOf-branch examples) with different counts per parameter, required parameters "
+    "objects, body-schema example, property-level (incl. falsy values and a property described by allOf) and anyOf-branch examples) with different counts per parameter, required parameters "
     "without examples and an operation without any example; every strategy of get_strategies_from_examples is drawn and each marker "
     "must occur at its place in some case, each case must carry all required inputs and a schema-valid filled-in body; a sample runs "
     "the real examples phase and reads the API's request log and skip events.",
@@ -224,7 +230,8 @@ CHECKS["C17"] = dict(
 CHECKS["C20"] = dict(
     category="exploration",
     text="Generated SDL schemas (built-in, extra and a registered custom scalar, enums, nested input objects, lists/non-null wrappers, "
-    "interfaces/unions, queries and mutations with 0-4 arguments) are loaded from SDL and from introspection JSON; for every root field "
+    "interfaces/unions, queries and mutations with 0-4 arguments, custom root type names, Subscription roots, the same field name under "
+    "both roots) are loaded from SDL and from introspection JSON; for every root field "
     "documents are drawn under graphql_allow_null x allow_x00 x codec and checked with graphql-core's parser and validator, a walk of "
     "the document (exactly one operation of the right kind selecting exactly the field, no null literals when disabled, NUL/codec on "
     "string values, exact parsers for Date/UUID/IPv4/Long/registered scalar); offered operations and selected/total counts are compared "
@@ -237,7 +244,7 @@ CHECKS["C20"] = dict(
 CHECKS["C06"] = dict(
     category="exploration",
     text="One operation per (location x style x explode x primitive/array/object) for OpenAPI 3.x, per collectionFormat for 2.0, and "
-    "JSON `content` parameters, with JSON / form / text bodies and base URLs with and without base path and trailing slash; positive "
+    "JSON `content` parameters, with JSON / form / multipart / text bodies and base URLs with and without base path and trailing slash; positive "
     "cases are generated, their raw values captured before serialisation, and sent through the requests transport to a recording "
     "server (and a share through the WSGI transport to a capture app); reference decoders written from the OpenAPI style tables must "
     "recover the generated values from the raw request line / headers / cookies, the path must be base path + template with a "
